@@ -8,7 +8,7 @@ keys whose leading fields match."
 
 Property theorems only; helper lemmas live in `Gsu/Proofs/Ixkey.lean`.
 -/
-import Gsu.Proofs.Ixkey11
+import Gsu.Proofs.Ixkey12
 import Gsu.Gen.Ixkey
 namespace Gsu.Props.C12
 open Gsu.Proto Gsu.Ixkey
@@ -174,6 +174,28 @@ theorem truncFn_spec (vs : List Bytes) (nf1 nf2 : Nat) (hl : vs.length = nf1) (h
 
 example : ([[1, 0], [], [3]] : List Bytes).length = 3 ∧ 1 ≤ 2 ∧ 2 ≤ 3 ∧
     truncFn 3 2 true true (joinEnc [[1, 0], [], [3]]) = [1, 0, 1, 0, 0] := by decide
+
+/-- `_lower!` index fields (negative field numbers): the byte order of the keys, which contain the
+case-folded packed strings (`PackedToLower`), is `Spec.Compare`, which compares the raw fields with
+`PackedCmpLower` — for every mix of plain and `_lower!` fields, with and without the
+secondary-field rule (Fields2 is consulted exactly when all raw indexed fields are empty). -/
+theorem key_cmp_lower (fields : List Fld) (fields2 : List Nat) (r1 r2 : List Bytes)
+    (h : fields ≠ [] ∨ fields2 = []) :
+    cmpB (keyL fields fields2 r1) (keyL fields fields2 r2) = compareL fields fields2 r1 r2 :=
+  Gsu.Ixkey.key_cmp_lower fields fields2 r1 r2 h
+
+-- a unique index on a `_lower!` column: equal up to case, so Fields2 must NOT be consulted
+example : compareL [⟨0, true⟩] [1] [[4, 65], [1]] [[4, 97], [2]] = .eq ∧
+    keyL [⟨0, true⟩] [1] [[4, 65], [1]] = keyL [⟨0, true⟩] [1] [[4, 97], [2]] := by decide
+
+/-- case folding is what the comparison uses: `cmpB` of the folded values = `PackedCmpLower` of the raw -/
+theorem packedToLower_cmp (a b : Bytes) : cmpB (packedToLower a) (packedToLower b) = packedCmpLower a b :=
+  Gsu.Ixkey.cmpB_packedToLower a b
+
+/-- without `_lower!` fields the general key is the plain one (so `key_cmp` … apply to it) -/
+theorem keyL_plain (fields fields2 : List Nat) (rec : List Bytes) :
+    keyL (fields.map fun i => ⟨i, false⟩) fields2 rec = key fields fields2 rec :=
+  Gsu.Ixkey.keyL_plain fields fields2 rec
 
 /-- (G) the separator and Max constants the model uses are the ones in `ixkey.go` today -/
 theorem gen_constants : Gsu.Gen.Ixkey.cSep = sep ∧ Gsu.Gen.Ixkey.cMax = maxKey ∧ Gsu.Gen.Ixkey.cMin = [] :=
